@@ -28,7 +28,13 @@ def cases(draw, tier="quick"):
     spec = draw(mdp_specs("dproper", min_states=2, max_states=6 if tier == "thorough" else 5, uniform_actions=True,
                           gammas=[0.5, 0.8, 0.9], absorbing_kinds=("n", "n", "n", "n", "abs"), allow_explicit=True,
                           reward_lo=-90 if big else None, reward_hi=90 if big else None))
-    return {"mdp": spec, "m": draw(st.integers(1, 5)), "episodes": draw(st.integers(1, 10)),
+    m_, eps_ = draw(st.integers(1, 5)), draw(st.integers(1, 10))
+    if draw(st.integers(0, 59)) == 0:
+        # a sample threshold beyond one byte, and a run long enough for a pair to reach it
+        spec = draw(mdp_specs("dproper", min_states=2, max_states=2, max_actions=2, uniform_actions=True, gammas=[0.5, 0.8],
+                              absorbing_kinds=("n", "abs"), allow_explicit=False))
+        m_, eps_ = draw(st.sampled_from([256, 257, 300])), draw(st.sampled_from([700, 1000]))
+    return {"mdp": spec, "m": m_, "episodes": eps_,
             "seed": draw(st.one_of(st.sampled_from([0, 1, 2 ** 31 - 1]), st.integers(0, 10 ** 6))),
             "diff": draw(st.sampled_from([1e-3, 1e-6])),
             # the number type of the rmax hyper-parameter (e.g. R.max() of a float32 reward table, or a plain int)
